@@ -43,7 +43,13 @@ def make_triple(score, rng):
     if len(ms) > 2 and rng.random() < 0.3:
         # (a repeated identical key signature is read as one: the change is to another key)
         old_fifths = [k.fifths for k in part.iter_all(score.KeySignature)]
-        part.add(score.KeySignature(rng.choice([f for f in range(-6, 7) if f not in old_fifths]), rng.choice(["major", "minor"])), rng.choice(ms[1:]))
+        at = rng.choice(ms[1:])
+        first = next(iter(part.iter_all(score.KeySignature)), None)
+        part.add(score.KeySignature(rng.choice([f for f in range(-6, 7) if f not in old_fifths]), rng.choice(["major", "minor"])), at)
+        later = [m for m in ms if m > at]
+        if first is not None and later and rng.random() < 0.6:
+            # ... and back to the first key at a later bar (A B A: the third signature restates a key that is not the previous one)
+            part.add(score.KeySignature(first.fifths, first.mode), rng.choice(later))
     ppq, mpq = rng.choice([(480, 500000), (96, 250000), (220, 600000), (960, 1000000)])
     notes, al, times = [], [], []
     with_ornaments = rng.random() < 0.4
